@@ -200,7 +200,7 @@ EXP_ORDERS = ["GS", "GS", "GSS", "GGS", "GSGS", "SGS", "GSSS"]
 EXP_ORDERS_SHRINK = ["DGS", "GDS", "LGS", "GLS", "GSDS", "GSLS"]
 
 
-def expansion_recipe(r, shrink=None):
+def expansion_recipe(r, shrink=None, alternates=True):
     nb = r.range(4, 6)
     base = list(range(1, nb + 1))
     nxt = [nb + 1]
@@ -230,6 +230,8 @@ def expansion_recipe(r, shrink=None):
         other base glyphs), each with targets of its own; returns (lookup index, {glyph: [targets]})"""
         srcs = sorted(set(cur) | set(r.sample(base, r.range(0, len(base)))))
         kind = r.choice(["single2", "single2", "single1", "alt", "multi"])
+        if kind == "alt" and not alternates:
+            kind = "single2"
         if kind == "single1":
             delta = nxt[0] - srcs[0]
             tm = {g: [g + delta] for g in srcs}
@@ -348,7 +350,7 @@ def expansion_recipe(r, shrink=None):
     feats = [{"tag": t, "lookups": [i for i in range(nmain) if len(tags) == 1 or i == k]} for k, t in enumerate(tags)]
     extra = [i for i in range(nmain, nmain + len(helpers)) if r.chance(1, 8)]
     if extra:
-        feats.append({"tag": r.choice(["ss01", "dlig", "salt"]), "lookups": extra})     # some helpers also run on their own
+        feats.append({"tag": r.choice(["ss01", "ss02", "salt"]), "lookups": extra})     # some helpers also run on their own
     rec["gsub"] = {"features": feats, "lookups": mains + helpers}
     return rec
 
